@@ -20,7 +20,7 @@ def run(ctx):
     T.clause_commit_order(R, F)
     T.clause_blockdb_commit(R, F)
     W.clause_blockdb_reorg(R, F)
-    W.clause_table_reorg_visits_all(R, F)
+    W.clause_table_reorg_visits_all(R, F, crash_clause=True)
     T.clause_tables(R, F, "reorg")
     T.clause_tables(R, F, "commit_changes")
     T.clause_reorg_order(R, F)
